@@ -344,7 +344,17 @@ func meta(ns, name string, l map[string]string) metav1.ObjectMeta {
 	if len(l) == 0 {
 		l = nil
 	}
-	return metav1.ObjectMeta{Namespace: ns, Name: name, Labels: copyMap(l)}
+	// metadata no filter may depend on: a generation, annotations reusing the label keys with other values, and on
+	// the objects named "x" a deletion timestamp, a finalizer and a controller owner
+	m := metav1.ObjectMeta{Namespace: ns, Name: name, Labels: copyMap(l), Generation: 7, Annotations: map[string]string{K1: "9", K2: "1"}}
+	if name == "x" {
+		t := metav1.Unix(1000, 0)
+		yes := true
+		m.DeletionTimestamp = &t
+		m.Finalizers = []string{"verif/hold"}
+		m.OwnerReferences = []metav1.OwnerReference{{APIVersion: "apps/v1", Kind: "ReplicaSet", Name: "y", UID: "u-y", Controller: &yes}}
+	}
+	return m
 }
 
 func mkPod(ns, name string, l map[string]string, node string) *corev1.Pod {
